@@ -32,7 +32,7 @@ struct Ctx {
   size_t pos = 0;
   size_t max_decisions = 64;
   bool poison_read = false;        // a poison symbol took part in arithmetic
-  double eps_value = -1.0;         // value of Constants<Scalar>::eps (set by harness.h)
+  double eps_value = -1.0; double eps_sqrt_value = -1.0;         // value of Constants<Scalar>::eps (set by harness.h)
   int force_eps = 0;               // 1: comparisons against eps are forced to the "quantity is large" outcome and not recorded (TRUNC: obtain the generic-branch formula)
   int mk(Op op, int a, int b, double c, double val, const std::string& name="") {
     auto key = std::make_tuple((int)op, a, b, c);
@@ -161,8 +161,8 @@ inline bool decide(int a, int cmp, int b, bool witness) {
 inline bool cmp(int op, const Real& a, const Real& b, bool w) {
   if (a.isConst() && b.isConst()) return w;
   if (ctx().force_eps && op!=2) {
-    if (b.isConst() && b.val()==ctx().eps_value) return false;   // x < eps, x <= eps  -> "x is large"
-    if (a.isConst() && a.val()==ctx().eps_value) return true;    // eps < x, eps <= x
+    if (b.isConst() && (b.val()==ctx().eps_value || b.val()==ctx().eps_sqrt_value)) return false;   // x < eps, x <= eps  -> "x is large"
+    if (a.isConst() && (a.val()==ctx().eps_value || a.val()==ctx().eps_sqrt_value)) return true;    // eps < x, eps <= x
   }
   if (a.id==b.id) return op!=0; // x<x false, x<=x true, x==x true
   return decide(a.id, op, b.id, w);
